@@ -45,23 +45,58 @@ Proof.
   unfold rune4. lia.
 Qed.
 
+(* a decoded rune is below 0x110000 *)
+Lemma lo6_lt b : (lo6 b < 64)%N.
+Proof. unfold lo6. apply N.mod_lt. discriminate. Qed.
+Lemma rune2_limit_all : forallb (fun p0 => forallb (fun b1 => (rune2 p0 b1 <? rune_limit)%N) all_bytes) all_bytes = true.
+Proof. vm_compute. reflexivity. Qed.
+Lemma hi3_limit_all : forallb (fun p0 => forallb (fun b1 => (hi3 p0 b1 + 63 <? rune_limit)%N) all_bytes) all_bytes = true.
+Proof. vm_compute. reflexivity. Qed.
+Lemma hi4_limit_all : forallb (fun p0 => match lead_of p0 with L4 lo hi => forallb (fun b1 => implb (in_rng lo hi b1) (hi4 p0 b1 + 4095 <? rune_limit)%N) all_bytes | _ => true end) all_bytes = true.
+Proof. vm_compute. reflexivity. Qed.
+
+Lemma rune2_limit p0 b1 : lead_of p0 = L2 -> (rune2 p0 b1 < rune_limit)%N.
+Proof.
+  intros _. pose proof (sweep _ rune2_limit_all p0) as S. cbv beta in S.
+  rewrite forallb_forall in S. apply N.ltb_lt. apply S. apply all_bytes_in.
+Qed.
+Lemma rune3_limit p0 b1 b2 lo hi : lead_of p0 = L3 lo hi -> (rune3 p0 b1 b2 < rune_limit)%N.
+Proof.
+  intros _. pose proof (sweep _ hi3_limit_all p0) as S. cbv beta in S.
+  rewrite forallb_forall in S. specialize (S b1 (all_bytes_in b1)). apply N.ltb_lt in S.
+  pose proof (lo6_lt b2). unfold rune3. lia.
+Qed.
+Lemma rune4_limit p0 b1 b2 b3 lo hi : lead_of p0 = L4 lo hi -> in_rng lo hi b1 = true -> (rune4 p0 b1 b2 b3 < rune_limit)%N.
+Proof.
+  intros E R. pose proof (sweep _ hi4_limit_all p0) as S. cbv beta in S. rewrite E in S.
+  rewrite forallb_forall in S. specialize (S b1 (all_bytes_in b1)). rewrite R in S. apply N.ltb_lt in S.
+  pose proof (lo6_lt b2). pose proof (lo6_lt b3). unfold rune4. lia.
+Qed.
+
+Section Err.
+  (* what an invalid byte decodes to: U+FFFD for Go's own decoding (runes), the byte kept apart for iri.go equalFold
+     (srunes); the lemmas need only that it is not an ASCII rune *)
+  Variable err : byte -> N.
+  Hypothesis err_big : forall b, (128 <= err b)%N.
+  Local Notation runes := (runes_with err).
+
 (* ================================================================ unfolding *)
 Lemma runes_cons p0 r : runes (p0 :: r) =
   match lead_of p0 with
   | LAscii => byteN p0 :: runes r
-  | LBad => rune_error :: runes r
+  | LBad => err p0 :: runes r
   | L2 => match r with
-          | b1 :: r1 => if is_cont b1 then rune2 p0 b1 :: runes r1 else rune_error :: runes r
-          | _ => rune_error :: runes r
+          | b1 :: r1 => if is_cont b1 then rune2 p0 b1 :: runes r1 else err p0 :: runes r
+          | _ => err p0 :: runes r
           end
   | L3 lo hi => match r with
-          | b1 :: b2 :: r2 => if is_cont b1 && in_rng lo hi b1 && is_cont b2 then rune3 p0 b1 b2 :: runes r2 else rune_error :: runes r
-          | _ => rune_error :: runes r
+          | b1 :: b2 :: r2 => if is_cont b1 && in_rng lo hi b1 && is_cont b2 then rune3 p0 b1 b2 :: runes r2 else err p0 :: runes r
+          | _ => err p0 :: runes r
           end
   | L4 lo hi => match r with
           | b1 :: b2 :: b3 :: r3 => if is_cont b1 && in_rng lo hi b1 && is_cont b2 && is_cont b3
-                                    then rune4 p0 b1 b2 b3 :: runes r3 else rune_error :: runes r
-          | _ => rune_error :: runes r
+                                    then rune4 p0 b1 b2 b3 :: runes r3 else err p0 :: runes r
+          | _ => err p0 :: runes r
           end
   end.
 Proof. reflexivity. Qed.
@@ -225,7 +260,7 @@ Proof.
                    (128 <= r)%N \/ exists b, In b (p0 :: t) /\ is_asciib b = true /\ r = byteN b).
     { intros z Hz Hi Hr. destruct (IH z r Hz Hr) as [H|[b [Hb [Ha Er]]]]; [left; exact H|].
       right. exists b. split; [right; apply Hi; exact Hb|auto]. }
-    assert (Err : (128 <= rune_error)%N) by (unfold rune_error; lia).
+    assert (Err : (128 <= err p0)%N) by apply err_big.
     destruct (lead_of p0) as [| | |lo hi|lo hi] eqn:L.
     + destruct Hin as [E|Hin]; [|apply (Tail t); [lia|apply incl_refl|exact Hin]].
       right. exists p0. split; [left; reflexivity|]. split; [|symmetry; exact E].
@@ -351,3 +386,27 @@ Proof.
       rewrite (lead_multi_nonascii c) by (rewrite L; reflexivity).
       rewrite (cont_nonascii b1 H1), (cont_nonascii b2 H3), (cont_nonascii b3 H4). reflexivity.
 Qed.
+End Err.
+
+(* the two decodings agree on valid UTF-8 *)
+Lemma runes_valid_any_n err err' n : forall s, length s <= n -> utf8_valid s = true -> runes_with err s = runes_with err' s.
+Proof.
+  induction n as [|n IH]; intros s Hl V; [destruct s; [reflexivity|simpl in Hl; lia]|].
+  destruct s as [|p0 r]; [reflexivity|]. simpl in Hl. rewrite !runes_cons. rewrite utf8_valid_cons in V.
+  destruct (lead_of p0) as [| | |lo hi|lo hi].
+  - f_equal. apply IH; [lia|exact V].
+  - discriminate.
+  - destruct r as [|b1 r1]; [discriminate|]. apply andb_true_iff in V. destruct V as [H1 V]. rewrite H1.
+    f_equal. apply IH; [simpl in Hl; lia|exact V].
+  - destruct r as [|b1 [|b2 r2]]; try discriminate. apply andb_true_iff in V. destruct V as [H1 V]. rewrite H1.
+    f_equal. apply IH; [simpl in Hl; lia|exact V].
+  - destruct r as [|b1 [|b2 [|b3 r3]]]; try discriminate. apply andb_true_iff in V. destruct V as [H1 V]. rewrite H1.
+    f_equal. apply IH; [simpl in Hl; lia|exact V].
+Qed.
+Lemma runes_valid_any err err' s : utf8_valid s = true -> runes_with err s = runes_with err' s.
+Proof. apply (runes_valid_any_n err err' (length s)). lia. Qed.
+
+Lemma lax_err_big b : (128 <= lax_err b)%N.
+Proof. unfold lax_err, rune_error. lia. Qed.
+Lemma strict_err_big b : (128 <= strict_err b)%N.
+Proof. unfold strict_err, rune_limit. lia. Qed.
